@@ -8,7 +8,8 @@ LEVEL = "model_checking"
 RULE = ("every rooted DAG shape (n<=3 quick / n<=4 thorough) x kinds x --jobs x failing-task choice, explored under the "
         "virtual kernel with all completion orders (deviation 0) and every exit batching / delivery point up to the "
         "deviation bound; a case is distinct+non-trivial per distinct terminal observation (order of starts, exits, "
-        "reaper identity, outcome lines)")
+        "reaper identity, outcome lines)"
+        ' An unrelated child of the cond process (exit 0 / exit 5 / killed) is added to every small case, also with failing tasks. The self-pipe read() has an entry phase (lost-wakeup window) and a blocked phase.')
 ASSUMPTIONS = [
     "virtual kernel models Linux waitpid/SIGCHLD/getpgid semantics (bound to the real kernel by vfw.conformance)",
     "CPython delivers a pending signal at the latest right after the C call during which it arrived",
@@ -62,6 +63,12 @@ def items(tier):
             # an unrelated child (exit 0 / exit 5 / killed) whose exit is reaped by Conductor's handler at any point
             for st in (True, 5 << 8, 9):
                 out.append({"case": dict(case, unrelated=st), "bound": 1 if n > 1 else 2})
+    for g in ([[1, 2, 3, 4], [], [], [], []], [[1, 2, 3], [], [], []]):
+        n = len(g)
+        for failing in range(1, n):
+            for jobs in (2, 3):
+                for kinds in (["cmd"] * n, ["exp"] * n):
+                    out.append({"case": {"g": g, "kinds": kinds, "pars": [True] * n, "jobs": jobs, "fails": {str(failing): ["launch"]}}, "bound": 1})
     out.append({"kind": "kernel-semantics"})
     for case in rungrid.conformance_cases(tier):
         out.append({"case": case, "bound": 0, "conform": True})
